@@ -43,10 +43,12 @@ pub mod crossbeam_channel {
     impl<T> Receiver<T> {
         /// identity of the queue this receiver drains (== id() of the paired senders)
         pub uninterp spec fn id(&self) -> int;
+        /// the queue is empty and every sender is gone (what a failing recv reports)
+        pub uninterp spec fn disconnected_empty(&self) -> bool;
         /// the message handed out by a successful recv on this queue was sent to this queue
         #[verifier::external_body]
         pub fn recv(&self) -> (r: core::result::Result<T, RecvError>)
-            ensures r is Ok ==> sent(self.id(), r->Ok_0),
+            ensures r is Ok ==> sent(self.id(), r->Ok_0), r is Err ==> self.disconnected_empty(),
         { unimplemented!() }
     }
     #[verifier::external_body]
